@@ -54,6 +54,18 @@ class TraitSetEvent(object):
         )
 
 
+def _as_removed(value):
+    """ Return the set of removed items for a removed ``value``.
+
+    Like ``set``, the ``remove`` and ``discard`` methods accept an (unhashable)
+    set in place of the equal frozenset that is a member.
+    """
+    try:
+        return {value}
+    except TypeError:
+        return {frozenset(value)}
+
+
 @IObservable.register
 class TraitSet(set):
     """ A subclass of set that validates and notifies listeners of changes.
@@ -290,7 +302,7 @@ class TraitSet(set):
         super().discard(value)
 
         if value_in_self:
-            self.notify({value}, set())
+            self.notify(_as_removed(value), set())
 
     def difference_update(self, *args):
         """  Remove all elements of another set from this set.
@@ -364,7 +376,7 @@ class TraitSet(set):
         """
 
         super().remove(value)
-        self.notify({value}, set())
+        self.notify(_as_removed(value), set())
 
     def symmetric_difference_update(self, value):
         """ Update the set with the symmetric difference of itself and another.
